@@ -48,7 +48,7 @@ func LoadJQ(repo string) (*JQ, error) {
 			if info.IsDir() && info.Name() == "testdata" {
 				return filepath.SkipDir
 			}
-			if !info.IsDir() && strings.HasSuffix(path, ".jq") {
+			if !info.IsDir() && strings.HasSuffix(path, ".jq") && !strings.HasPrefix(info.Name(), ".") {
 				paths = append(paths, path)
 			}
 			return nil
